@@ -7,5 +7,6 @@
 (* all sequences of branch decisions.                                        *)
 EXTENDS Reloop, Json, IOUtils
 Recs == JsonDeserialize(IOEnv.TRACE_FILE)
-Next == NextOn(Recs)
+PickCase == PickGuard /\ (\E k \in InChunk(Len(Recs)) : i' = k /\ cs' = Recs[k]) /\ Picked
+Next == PickChunk \/ PickCase \/ Step
 =============================================================================
